@@ -146,11 +146,11 @@ def tuple_field_kinds(body, pl, depth):
     return out
 
 
-def return_status_locals(body, bb):
+def return_status_locals(body, bb, ret=0):
     """For a block assigning the return value `_0 = (status, a, b)` (possibly wrapped in CopyAsciiResult::Stop),
     the local holding the status."""
     for st in body.blocks[bb]['s']:
-        if 'assign' in st and st['assign']['l'] == 0 and not st['assign']['p'] and 'aggregate' in st['rv']:
+        if 'assign' in st and st['assign']['l'] == ret and not st['assign']['p'] and 'aggregate' in st['rv']:
             ops = st['rv']['ops']
             if st['rv']['aggregate'] == 'tuple' and ops:
                 pl = op_place(ops[0])
@@ -202,6 +202,18 @@ def pure_space_exit(body, S):
         if sl is not None:
             kinds = status_kind(body, sl)
             return kinds is not None and kinds <= {'InputEmpty', 'OutputFull'}
+    # `_0 = move t` where t is built on the same straight-line exit (a spliced helper returns through its own result local)
+    for x in seen:
+        for st in body.blocks[x]['s']:
+            if 'assign' in st and st['assign']['l'] == 0 and not st['assign']['p'] and 'use' in st['rv']:
+                pl = op_place(st['rv']['use'])
+                if pl is None or pl['p']:
+                    continue
+                for y in seen:
+                    sl = return_status_locals(body, y, pl['l'])
+                    if sl is not None:
+                        kinds = status_kind(body, sl)
+                        return kinds is not None and kinds <= {'InputEmpty', 'OutputFull'}
     return False
 
 
